@@ -76,7 +76,11 @@ func CheckRun(rep *vh.Report, run *Run, sc any) {
 				nx := c.Posts[i+1]
 				gap := nx.T - p.T
 				if p.Asked >= 0 && nx.T < p.Asked {
-					viol("retry-after-ignored:"+p.Cls+":"+p.Rak, fmt.Sprintf("Retry-After (%s) asked to wait until %d ms, the next request came at %d ms (after %d ms)", p.Rak, p.Asked, nx.T, gap), c)
+					form := p.Rak
+					if p.Spec.Var != "" {
+						form += "-" + p.Spec.Var
+					}
+					viol("retry-after-ignored:"+p.Cls+":"+form, fmt.Sprintf("Retry-After (%s) asked to wait until %d ms, the next request came at %d ms (after %d ms)", form, p.Asked, nx.T, gap), c)
 				}
 				if lim := max(p.T+capMs, askMax(nx.T)) + jitterMs - 1; nx.T > lim {
 					viol("cap-exceeded:"+p.Cls, fmt.Sprintf("after %s at %d ms the next request came at %d ms (a wait of %d ms); cap 128 s + jitter and everything the server asked for allow %d ms at the latest", p.Cls, p.T, nx.T, gap, lim), c)
